@@ -1,4 +1,5 @@
 import Cadence.Proofs.QueueProps
+import Cadence.Proofs.Queue0Props
 /-!
 # C10 — the queuing sink isolates callers from the wrapped sink
 
@@ -39,5 +40,18 @@ theorem callers_never_run_the_sink (s s' : St μ) (l : Label μ) (o : Obs) (hs :
 example : ((runLabels (init (some 2) false : St Nat)
     [.emitTry 0 1, .emitCount, .wCheck, .wRecv, .wCount, .emitTry 0 2, .emitCount, .emitTry 0 3, .emitCount]).bind
       (fun s => (step s (.emitTry 0 4)).map (·.2))) = some .emitErr := by decide
+
+/-! ## capacity 0 (rendezvous channel, model `Cadence.Model.Queue0`) -/
+
+/-- capacity 0: an emit on a live handle is a single step enabled in every state; it is accepted exactly
+when the worker waits for a metric — never while the worker is inside the wrapped sink — and a refusal
+changes nothing -/
+theorem rendezvous_emit_never_waits {μ : Type} (s : Queue0.St μ) (h : Nat) (m : μ) (hh : h ∈ s.handles) :
+    ∃ s' o, Queue0.step s (.emitTry h m) = some (s', o) ∧
+      (o = .emitOk ↔ s.phase = .waiting) ∧ (o ≠ .emitOk → s' = s) := by
+  cases hp : s.phase
+  case waiting => exact ⟨{ s with phase := .got (some m), accepted := s.accepted ++ [m], submitted := s.submitted + 1 }, .emitOk,
+    by simp [Queue0.step, hh, hp], by simp [hp], by simp⟩
+  all_goals exact ⟨s, .emitErr, by simp [Queue0.step, hh, hp], by simp, fun _ => rfl⟩
 
 end C10
